@@ -162,4 +162,204 @@ Section Put.
       + destruct T; auto. simpl. subst. apply Nat.eqb_refl.
     - now apply Z.eqb_eq.
   Qed.
+
+  (** ** heap updates *)
+  Lemma hset_length : forall (h : heap) i n, length (hset h i n) = length h.
+  Proof. induction h as [|x h IH]; intros [|i] n; simpl; auto. Qed.
+
+  Lemma nth_hset_eq : forall (h : heap) i n, (i < length h)%nat -> nth_error (hset h i n) i = Some n.
+  Proof. induction h as [|x h IH]; intros [|i] n H; simpl in *; try lia; auto. apply IH. lia. Qed.
+
+  Lemma nth_hset_neq : forall (h : heap) i j n, i <> j -> nth_error (hset h i n) j = nth_error h j.
+  Proof. induction h as [|x h IH]; intros [|i] [|j] n H; simpl; auto; try congruence. Qed.
+
+  Definition with_left (n : pnode) (l : option nat) : pnode :=
+    {| n_bp := n_bp n; n_key := n_key n; n_val := n_val n; n_left := l; n_right := n_right n |}.
+  Definition with_right (n : pnode) (r : option nat) : pnode :=
+    {| n_bp := n_bp n; n_key := n_key n; n_val := n_val n; n_left := n_left n; n_right := r |}.
+
+  Definition redirect (h1 : heap) (p c nid : nat) : heap :=
+    match nth_error h1 p with
+    | Some pn => if oeq (n_left pn) (Some c) then hset h1 p (with_left pn (Some nid))
+                 else hset h1 p (with_right pn (Some nid))
+    | None => h1
+    end.
+
+  Section Insert.
+    Variable h : heap.
+    Variable k : key.
+    Variable v : V.
+    Variable dp : Z.
+    Let nid := length h.
+    Definition nw (c' : nat) : pnode :=
+      if pbit k dp then {| n_bp := dp; n_key := k; n_val := v; n_left := Some c'; n_right := Some nid |}
+      else {| n_bp := dp; n_key := k; n_val := v; n_left := Some nid; n_right := Some c' |}.
+    Definition H2 (p' c' : nat) : heap := redirect (h ++ [nw c']) p' c' nid.
+
+    Lemma H2_other : forall p' c' i, (i < length h)%nat -> i <> p' -> nth_error (H2 p' c') i = nth_error h i.
+    Proof.
+      intros p' c' i Hi NE. unfold H2, redirect. destruct (nth_error (h ++ [nw c']) p') as [pn|].
+      - destruct (oeq (n_left pn) (Some c')); rewrite nth_hset_neq by auto; now apply nth_error_app1.
+      - now apply nth_error_app1.
+    Qed.
+
+    Lemma H2_at : forall p' c' pn, nth_error h p' = Some pn ->
+      nth_error (H2 p' c') p' =
+        Some (if oeq (n_left pn) (Some c') then with_left pn (Some nid) else with_right pn (Some nid)).
+    Proof.
+      intros p' c' pn Hp. assert (L : (p' < length h)%nat) by (apply nth_error_Some; congruence).
+      unfold H2, redirect. rewrite (nth_error_app1 _ _ L), Hp.
+      destruct (oeq (n_left pn) (Some c')); apply nth_hset_eq; rewrite app_length; simpl; lia.
+    Qed.
+
+    Lemma H2_new : forall p' c', (p' < length h)%nat -> nth_error (H2 p' c') nid = Some (nw c').
+    Proof.
+      intros p' c' L. unfold H2, redirect. rewrite (nth_error_app1 _ _ L).
+      assert (E : nth_error (h ++ [nw c']) nid = Some (nw c')).
+      { unfold nid. rewrite nth_error_app2 by lia. now rewrite Nat.sub_diag. }
+      destruct (nth_error h p') as [pn|]; auto.
+      destruct (oeq (n_left pn) (Some c')); rewrite nth_hset_neq; auto; unfold nid; lia.
+    Qed.
+
+    Lemma H2_bp : forall p' c' i n, (p' < length h)%nat -> nth_error h i = Some n ->
+      exists n', nth_error (H2 p' c') i = Some n' /\ n_bp n' = n_bp n /\ n_key n' = n_key n /\ n_val n' = n_val n.
+    Proof.
+      intros p' c' i n L Hi. destruct (Nat.eq_dec i p') as [->|NE].
+      - rewrite (H2_at p' c' n Hi). destruct (oeq (n_left n) (Some c')); eexists; split; eauto.
+      - exists n. rewrite H2_other; auto. apply nth_error_Some. congruence.
+    Qed.
+
+    (** trees that do not contain the redirected node as an inner node are unchanged *)
+    Lemma H2_frame : forall p' c' pbp c T, (p' < length h)%nat ->
+      Rep h pbp c T -> ~ In p' (inners T) -> Rep (H2 p' c') pbp c T.
+    Proof.
+      intros p' c' pbp c T L R NI. apply (rep_frame h); auto.
+      - intros i Hi. destruct (rep_valid _ _ _ _ R) as [VI _]. specialize (VI i Hi).
+        destruct (nth_error h i) as [n|] eqn:E; [|apply nth_error_None in E; lia].
+        exists n, n. rewrite H2_other; [repeat split; auto | auto | intros ->; contradiction].
+      - intros j Hj. destruct (rep_valid _ _ _ _ R) as [_ VL]. specialize (VL j Hj).
+        destruct (nth_error h j) as [n|] eqn:E; [|apply nth_error_None in E; lia].
+        destruct (H2_bp p' c' j n L E) as [n' [E1 [E2 _]]]. eauto.
+    Qed.
+
+    Lemma rep_wrap : forall p pn S pbp c,
+      nth_error h p = Some pn -> n_bp pn = pbp -> pbp < dp ->
+      Rep h pbp c S -> ~ In p (inners S) ->
+      (match S with PLeaf _ => True | PNode i _ _ => dp < nbp h i end) ->
+      Rep (H2 p c) pbp nid (wrap k dp nid S).
+    Proof.
+      intros p pn S pbp c Hp Hb LT R NI SH.
+      assert (L : (p < length h)%nat) by (apply nth_error_Some; congruence).
+      assert (RS : Rep (H2 p c) dp c S).
+      { inversion R; subst.
+        - destruct (H2_bp p c c cn L H) as [n' [E1 [E2 _]]]. apply (RepLeaf _ dp c n'); auto. lia.
+        - apply (H2_frame p c) in R; auto. inversion R; subst.
+          apply (RepNode _ dp c cn0 l0 r0); auto.
+          assert (EB : n_bp cn0 = n_bp cn).
+          { destruct (H2_bp p c c cn L H) as [n' [E1 [E2 _]]]. congruence. }
+          rewrite EB. unfold nbp in SH. now rewrite H in SH. }
+      assert (RN : Rep (H2 p c) dp nid (PLeaf nid)).
+      { apply (RepLeaf _ dp nid (nw c)); [now apply H2_new|]. unfold nw. destruct (pbit k dp); simpl; lia. }
+      unfold wrap. destruct (pbit k dp) eqn:E.
+      - apply (RepNode _ pbp nid (nw c) c nid); try (unfold nw; rewrite E; simpl; auto; lia).
+        all: try (now apply H2_new). all: unfold nw; rewrite E; simpl; auto.
+      - apply (RepNode _ pbp nid (nw c) nid c); try (unfold nw; rewrite E; simpl; auto; lia).
+        all: try (now apply H2_new). all: unfold nw; rewrite E; simpl; auto.
+    Qed.
+
+    Lemma put_stop : forall g p pn c cn,
+      nth_error h p = Some pn -> nth_error h c = Some cn ->
+      (n_bp cn <= n_bp pn \/ dp <= n_bp cn) ->
+      put_loop (S g) h k dp p c = ROk (p, c).
+    Proof.
+      intros g p pn c cn Hp Hc H. cbn [put_loop]. unfold hget. rewrite Hp, Hc. cbn [rbind].
+      replace ((n_bp cn >? n_bp pn) && (n_bp cn <? dp)) with false; [reflexivity|].
+      symmetry. apply andb_false_iff. rewrite Z.gtb_ltb. destruct H; [left | right]; apply Z.ltb_ge; lia.
+    Qed.
+
+    Lemma put_core : forall S pbp c, Rep h pbp c S -> forall p pn g,
+      nth_error h p = Some pn -> n_bp pn = pbp -> pbp < dp -> 0 <= pbp ->
+      tbits (nbp h) (nkey h) S -> NoDup (inners S) -> (height S < g)%nat ->
+      agree k (nkey h (ts (nbp h) k S)) dp -> pbit k dp <> pbit (nkey h (ts (nbp h) k S)) dp ->
+      exists p' c', put_loop g h k dp p c = ROk (p', c') /\ (p' < length h)%nat /\
+        (p' = p \/ In p' (inners S)) /\ (p' = p -> c' = c) /\
+        Rep (H2 p' c') pbp (if Nat.eqb p' p then nid else c) (tins (nbp h) k dp nid S).
+    Proof.
+      induction 1 as [pbp c cn Hc LE | pbp c cn l r tl tr Hc LT HL HR Rl IHl Rr IHr];
+        intros p pn g Hp Hb LTd Hz TB ND Hg AG DF;
+        assert (L : (p < length h)%nat) by (apply nth_error_Some; congruence);
+        (destruct g as [|g]; [simpl in Hg; lia|]).
+      - exists p, c. split; [apply (put_stop g p pn c cn); auto; lia|].
+        split; [exact L|]. split; [auto|]. split; [auto|]. rewrite Nat.eqb_refl. cbn [tins].
+        apply (rep_wrap p pn (PLeaf c) pbp c); auto. eapply RepLeaf; eauto.
+      - pose proof TB as [B1 [L0 [R1 [AGT [Tl Tr]]]]].
+        assert (NB : nbp h c = n_bp cn) by (unfold nbp; now rewrite Hc).
+        assert (RW : Rep h pbp c (PNode c tl tr)) by (eapply RepNode; eauto).
+        simpl in ND. apply NoDup_cons_iff in ND as [NC ND]. apply nodup_app_iff in ND as [NDl [NDr DJ]].
+        assert (PC : p <> c) by (intros ->; rewrite Hp in Hc; injection Hc as ->; lia).
+        assert (PI : ~ In p (inners (PNode c tl tr))).
+        { intros I. pose proof (rep_inner_bp _ _ _ _ RW p I) as Q. unfold nbp in Q. rewrite Hp in Q. lia. }
+        cbn [tins ts] in *. rewrite NB in *.
+        destruct (Z.ltb_spec (n_bp cn) dp) as [LTc|GEc].
+        + (* descend *)
+          assert (STEP : forall x, child cn (pbit k (n_bp cn)) = ROk x ->
+                    put_loop (S g) h k dp p c = put_loop g h k dp c x).
+          { intros x CH. cbn [put_loop]. unfold hget. rewrite Hp, Hc. cbn [rbind]. rewrite Hb.
+            replace (n_bp cn >? pbp) with true by (symmetry; apply Z.gtb_lt; lia).
+            replace (n_bp cn <? dp) with true by (symmetry; apply Z.ltb_lt; lia). cbn [andb].
+            rewrite kbit_pos by lia. cbn [rbind]. rewrite CH. reflexivity. }
+          assert (CI : ~ In c (inners tl) /\ ~ In c (inners tr)).
+          { split; intros I; [pose proof (rep_inner_bp _ _ _ _ Rl c I) as Q | pose proof (rep_inner_bp _ _ _ _ Rr c I) as Q];
+              rewrite NB in Q; lia. }
+          assert (LR : l <> r) by (eapply links_distinct; eauto).
+          assert (Lc : (c < length h)%nat) by (apply nth_error_Some; congruence).
+          simpl in Hg.
+          destruct (pbit k (n_bp cn)) eqn:EB.
+          * destruct (IHr c cn g Hc eq_refl LTc) as [p' [c' [PL [Lp [WH [PC' RP]]]]]]; auto; try lia.
+            exists p', c'. rewrite (STEP r) by (unfold child; now rewrite HR). split; [exact PL|]. split; [exact Lp|].
+            assert (NP : p' <> p).
+            { destruct WH as [-> | WH]; auto. intros ->. apply PI. simpl. right. apply in_or_app. auto. }
+            split; [right; simpl; destruct WH as [-> | WH]; auto; right; apply in_or_app; auto|].
+            split; [intros; contradiction|].
+            replace (Nat.eqb p' p) with false by (symmetry; now apply Nat.eqb_neq).
+            destruct (Nat.eq_dec p' c) as [->|NPC].
+            -- specialize (PC' eq_refl). subst c'. rewrite Nat.eqb_refl in RP.
+               pose proof (H2_at c r cn Hc) as HA. rewrite HL in HA.
+               replace (oeq (Some l) (Some r)) with false in HA by (symmetry; simpl; now apply Nat.eqb_neq).
+               apply (RepNode _ pbp c (with_right cn (Some nid)) l nid); auto.
+               ++ simpl. apply H2_frame; auto. tauto.
+            -- rewrite (proj2 (Nat.eqb_neq _ _) NPC) in RP.
+               assert (INR : In p' (inners tr)) by (destruct WH; congruence).
+               apply (RepNode _ pbp c cn l r); auto.
+               ++ rewrite H2_other; auto.
+               ++ apply H2_frame; auto. intros IL. eapply DJ; eauto.
+          * destruct (IHl c cn g Hc eq_refl LTc) as [p' [c' [PL [Lp [WH [PC' RP]]]]]]; auto; try lia.
+            exists p', c'. rewrite (STEP l) by (unfold child; now rewrite HL). split; [exact PL|]. split; [exact Lp|].
+            assert (NP : p' <> p).
+            { destruct WH as [-> | WH]; auto. intros ->. apply PI. simpl. right. apply in_or_app. auto. }
+            split; [right; simpl; destruct WH as [-> | WH]; auto; right; apply in_or_app; auto|].
+            split; [intros; contradiction|].
+            replace (Nat.eqb p' p) with false by (symmetry; now apply Nat.eqb_neq).
+            destruct (Nat.eq_dec p' c) as [->|NPC].
+            -- specialize (PC' eq_refl). subst c'. rewrite Nat.eqb_refl in RP.
+               pose proof (H2_at c l cn Hc) as HA. rewrite HL in HA.
+               replace (oeq (Some l) (Some l)) with true in HA by (symmetry; simpl; apply Nat.eqb_refl).
+               apply (RepNode _ pbp c (with_left cn (Some nid)) nid r); auto.
+               ++ simpl. apply H2_frame; auto. tauto.
+            -- rewrite (proj2 (Nat.eqb_neq _ _) NPC) in RP.
+               assert (INL : In p' (inners tl)) by (destruct WH; congruence).
+               apply (RepNode _ pbp c cn l r); auto.
+               ++ rewrite H2_other; auto.
+               ++ apply H2_frame; auto. intros IR. eapply DJ; eauto.
+        + (* the insertion point is this link *)
+          exists p, c. split; [apply (put_stop g p pn c cn); auto; lia|].
+          split; [exact L|]. split; [auto|]. split; [auto|]. rewrite Nat.eqb_refl.
+          destruct (Z.ltb_spec (n_bp cn) dp); [lia|].
+          apply (rep_wrap p pn (PNode c tl tr) pbp c); auto.
+          rewrite NB. assert (NE : n_bp cn <> dp); [|lia].
+          intros EQ. apply DF. rewrite <- EQ. destruct (pbit k (n_bp cn)) eqn:EB.
+          * symmetry. apply R1. apply ts_in.
+          * symmetry. apply L0. apply ts_in.
+    Qed.
+  End Insert.
 End Put.
